@@ -744,3 +744,106 @@ func requireHistories(r *harness.Run) {
 		}
 	}
 }
+
+// overflowHandlerWork — what the message handler of a call-stack overflow may do: it runs in the
+// reserve frames above the limit, and protected calls made *inside* it (which fail, succeed, have
+// handlers of their own that return or raise, run coroutines, or enter through the Go API) must leave
+// that reserve as it was: the handler goes on calling afterwards. Complete product of activity x
+// depth of the calls that follow x stack kind x thread. Oracle: xpcall returns false and the
+// handler's value, in which the activity's own results are the ones it gives at top level of a fresh
+// state (differential), and the overflow probe afterwards behaves as on a fresh state.
+func overflowHandlerWork(r *harness.Run) {
+	acts := []struct{ name, expr string }{
+		{"none", `"-"`},
+		{"pcall-fails", `tostring(pcall(error, "e"))`},
+		{"pcall-ok", `tostring(pcall(type, 1))`},
+		{"xpcall-fails-handler-returns", `tostring(select(2, xpcall(function() error("e") end, function(m) return "ih" end)))`},
+		{"xpcall-fails-handler-raises", `tostring((xpcall(function() error("e") end, function(m) error("again") end)))`},
+		{"xpcall-ok", `tostring(select(2, xpcall(function() return "fine" end, function(m) return "ih" end)))`},
+		{"xpcall-fault", `tostring(select(2, xpcall(function() local x = nil + 1 end, function(m) return "ih" end)))`},
+		{"coroutine-error", `tostring((coroutine.resume(coroutine.create(function() error("x") end))))`},
+		{"coroutine-xpcall", `tostring(select(2, coroutine.resume(coroutine.create(function() return select(2, xpcall(function() error("e") end, function(m) return "cih" end)) end))))`},
+		{"gopcall-handler-returns", `tostring(gopcallh(function() error("e") end))`},
+		{"gopcall-handler-raises", `tostring(gopcallhf(function() error("e") end))`},
+		{"two-xpcalls", `tostring(select(2, xpcall(function() error("e") end, function(m) return "i1" end))) .. tostring(select(2, xpcall(function() error("e") end, function(m) return "i2" end)))`},
+	}
+	probe := `local depth, n = 0, 0
+local function r() depth = depth + 1 return 1 + r() end
+local ok, m = xpcall(r, function(m) n = n + 1 return "H" end)
+return depth, tostring(ok), tostring(m), n`
+	for _, opts := range []lua.Options{{CallStackSize: 64}, {CallStackSize: 64, MinimizeStackMemory: true}, {}} {
+		for _, where := range []string{"main", "coroutine"} {
+			run := func(src string) string {
+				L := lua.NewState(opts)
+				defer L.Close()
+				mk := func(handler int) lua.LGFunction {
+					return func(L *lua.LState) int {
+						var h *lua.LFunction
+						switch handler {
+						case 1:
+							h = L.NewFunction(func(L *lua.LState) int { L.Push(lua.LString("gh")); return 1 })
+						case 2:
+							h = L.NewFunction(func(L *lua.LState) int { L.RaiseError("go handler fails"); return 0 })
+						}
+						L.Push(L.Get(1))
+						err := L.PCall(0, 0, h)
+						L.Push(lua.LBool(err == nil))
+						return 1
+					}
+				}
+				L.SetGlobal("gopcallh", L.NewFunction(mk(1)))
+				L.SetGlobal("gopcallhf", L.NewFunction(mk(2)))
+				if where == "coroutine" {
+					src = "local co = coroutine.create(function()\n" + src + "\nend)\nreturn select(2, coroutine.resume(co))"
+				}
+				res := ""
+				func() {
+					defer func() {
+						if rec := recover(); rec != nil {
+							res = fmt.Sprintf("GO PANIC: %v", rec)
+						}
+					}()
+					if err := L.DoString(src); err != nil {
+						res = "ERROR: " + err.Error()
+						return
+					}
+					var parts []string
+					for i := 1; i <= L.GetTop(); i++ {
+						parts = append(parts, L.Get(i).String())
+					}
+					res = strings.Join(parts, "|")
+				}()
+				return res
+			}
+			cfg := fmt.Sprintf("css=%d/minstack=%v/%s", opts.CallStackSize, opts.MinimizeStackMemory, where)
+			// same frame nesting as in the cases below (and not a tail call)
+			freshProbe := strings.TrimPrefix(run("local after = (function() "+probe+" end)\nreturn 0, after()"), "0|")
+			for _, a := range acts {
+				top := run("return " + a.expr) // the activity's own results, outside any handler
+				for _, d := range []int{0, 1, 4, 9} {
+					src := fmt.Sprintf(`local function nest(k) if k == 0 then return 0 end return 1 + nest(k - 1) end
+local runs = 0
+local function handler(m)
+  runs = runs + 1
+  local a = %s
+  local d = nest(%d)
+  return "H/" .. a .. "/" .. d
+end
+local function r() return 1 + r() end
+local ok, v = xpcall(r, handler)
+local after = (function() %s end)
+return tostring(ok), v, runs, after()`, a.expr, d, probe)
+					got := run(src)
+					want := fmt.Sprintf("false|H/%s/%d|1|%s", top, d, freshProbe)
+					sig := fmt.Sprintf("overflow-handler-work/%s/then-%d-calls", a.name, d)
+					r.Eval(sig+"/"+cfg, true, func() interface{} {
+						return map[string]interface{}{"case": "work inside the handler of a call-stack overflow", "activity": a.name, "calls_afterwards": d, "configuration": cfg}
+					})
+					if got != want {
+						r.Violation(sig, fmt.Sprintf("%s: the handler of a call-stack overflow runs %s and then a chain of %d calls; xpcall and the probe afterwards give\n  %s\nexpected (activity evaluated outside a handler, probe on a fresh state)\n  %s", cfg, a.name, d, got, want), map[string]interface{}{"activity": a.name, "calls_afterwards": d, "configuration": cfg, "source": src})
+					}
+				}
+			}
+		}
+	}
+}
